@@ -19,7 +19,7 @@ var C17SchemaBool = []string{
 	"iface", "ifaceChain", "union", "enum", "input", "lists", "defaults", "dirType", "dirExec",
 	"builtinDir", "mutation", "subscription", "extend", "scalars", "idKeyword", "idInitialism",
 	"idUnderscore", "idEnumClash", "idTypeClash",
-	"handInModel", // SchemaLate of the spec
+	"handInModel", "ifaceOrphan", // SchemaLate of the spec
 }
 
 // C17YamlBool are the ConfigBool factors that are literally boolean keys of gqlgen.yml.
@@ -33,7 +33,7 @@ var C17YamlBool = []string{
 	"skip_validation",
 }
 
-var C17OtherBool = []string{"execFollow", "omit_template_comment", "struct_tag", "stub", "autobindModel"}
+var C17OtherBool = []string{"execFollow", "omit_template_comment", "struct_tag", "stub", "autobindModel", "schemaInExecDir"}
 
 var C17Multi = []string{"worker_limit", "go_initialisms", "models", "resolver"}
 
@@ -43,7 +43,7 @@ var C17KnownDefect = []string{"q_nestedNullMix", "q_dirArgPredeclared", "q_funcS
 	"q_argNamedPanic", "q_autobindIntrospection", "q_valueStructCycle3", "q_leadUnderscoreTypeResolver"}
 
 // C17Held mirrors Held of the spec (fixed along an evolution).
-var C17Held = map[string]bool{"execFollow": true, "resolver": true, "models": true, "stub": true}
+var C17Held = map[string]bool{"execFollow": true, "resolver": true, "models": true, "stub": true, "schemaInExecDir": true}
 
 // C17Factors is the full, ordered factor list.
 func C17Factors() []string {
